@@ -23,6 +23,19 @@ def outcome_class(ans):
     return '%s/%s/%s' % (a['S']['status'], oc(a['F']), oc(a['E']))
 
 
+def hide_known_witnesses(cs, u, prop):
+    """witness types of recorded findings are exercised only by the checks of the properties they violate"""
+    def hidden(m):
+        if m.get('kind') in ('type', 'stype'): return False
+        for key in ('ti', 'tj'):
+            k = m.get(key)
+            if k is not None and k < len(u.types):
+                if any(x.known and prop not in x.known for x in u.types[k].walk()): return True
+        return False
+    keep = [k for k, m in enumerate(cs.meta) if not hidden(m)]
+    cs.lines = [cs.lines[k] for k in keep]; cs.meta = [cs.meta[k] for k in keep]
+
+
 class CaseSpec:
     """A property decided through the line protocol: generate cases, run implementation and model,
     compare, evaluate the oracle on the implementation's answers."""
@@ -62,16 +75,7 @@ class CaseSpec:
                     'coverage': {'evaluations': 0, 'distinct_nontrivial': 0, 'rule': self.rule, 'samples': []}}
         names = harness_names()
         cs = casegen.gen_cases(prop, u, seed, tier, probe=run_harness)
-        # witness types of recorded findings are exercised only by the checks of the properties they violate
-        def hidden(m):
-            if m.get('kind') in ('type', 'stype'): return False
-            for key in ('ti', 'tj'):
-                k = m.get(key)
-                if k is not None and k < len(u.types):
-                    if any(x.known and prop not in x.known for x in u.types[k].walk()): return True
-            return False
-        keep = [k for k, m in enumerate(cs.meta) if not hidden(m)]
-        cs.lines = [cs.lines[k] for k in keep]; cs.meta = [cs.meta[k] for k in keep]
+        hide_known_witnesses(cs, u, prop)
         if replay:
             rp = json.load(open(replay))
             lines = rp.get('detail', {}).get('lines')
@@ -725,6 +729,7 @@ class C08Spec(CaseSpec):
             return res
         u = build_universe(seed, tier)
         cs = casegen.gen_cases(prop, u, seed, tier, probe=run_harness)
+        hide_known_witnesses(cs, u, prop)
         keep = [k for k, m in enumerate(cs.meta) if m.get('kind') == 'type' or (m.get('kind') == 'load' and m.get('loader') in ('full', 'mem') and m.get('flags') == 0)]
         lines = [cs.lines[k] for k in keep]
         metas = [cs.meta[k] for k in keep]
